@@ -34,7 +34,7 @@ def extra_referrers(rng, g, k):
     for i in range(k):
         if not anyt:
             break
-        kind = rng.choice(["surround", "inside", "connector", "connector-corner", "polyline", "use", "reuse", "expr", "surround2", "text-rel", "shifted", "clipped"])
+        kind = rng.choice(["surround", "inside", "connector", "connector-corner", "polyline", "use", "reuse", "expr", "surround2", "text-rel", "shifted", "clipped", "shifted-in-group"])
         eid = "x%d" % i
         if kind in ("surround", "surround2"):
             ts = rng.sample(anyt, min(len(anyt), 1 if kind == "surround" else 2))
@@ -76,6 +76,12 @@ def extra_referrers(rng, g, k):
             s = '<rect id="%s" x="%d" y="%d" width="6" height="4"%s%s rx="{{#%s~w / 100}}"/>' % (
                 eid, rng.randint(-20, 20), rng.randint(-20, 20), rng.choice(['', ' dx="%d"' % rng.randint(3, 15)]), rng.choice(['', ' dy="%d"' % rng.randint(-15, -3)]), t.id)
             deps = [t.id]
+        elif kind == "shifted-in-group":
+            # as 'shifted', but the element sits inside a group (which fails and is retried as a whole) and is referenced from outside
+            t = rng.choice(anyt)
+            s = '<g id="%sg" class="wrap"><rect id="%s" x="%d" y="%d" width="6" height="4" %s="{{#%s~w / 4 + 3}}"/></g>' % (
+                eid, eid, rng.randint(-20, 20), rng.randint(-20, 20), rng.choice(["dx", "dy"]), t.id)
+            deps = [t.id]
         elif kind == "clipped":
             t = rng.choice(anyt)
             cid = "cp%d" % i
@@ -94,7 +100,7 @@ def extra_referrers(rng, g, k):
     # second level: elements positioned against one of the referrers above (the referrer is then itself a target which may be
     # registered but unresolved when it is looked up)
     for j, (xid, _, _, xkind) in enumerate(list(out)):
-        if xkind in ("text-rel", "clipPath") or rng.random() < (0.1 if xkind in ("shifted", "clipped") else 0.4):
+        if xkind in ("text-rel", "clipPath") or rng.random() < (0.1 if xkind in ("shifted", "clipped", "shifted-in-group") else 0.4):
             continue
         yid = "y%d" % j
         form = rng.choice(["xy-rel", "cxy-loc", "surround", "expr", "connector"])
